@@ -17,7 +17,25 @@ package counters
 //@   props C19 C01 C07
 //@   nopanic
 //@   ensures len(symbols) == 0 ==> !result1
-//@   ensures[cyclic] len(symbols) > 0 ==> result1 && exists(k, 0, len(symbols), (value - 1 - k) % len(symbols) == 0 && result0 == symbol(symbols[k]))
+//@   ensures[cyclic] len(symbols) > 0 ==> result1 && result0 == symbol(symbols[vcyc(value, len(symbols))])
+
+// vcyc(value, n) is the index of the symbol a cyclic style of n symbols uses for value:
+// the representative of value-1 modulo n in [0, n) (lemma vcyc-is-the-residue below).
+func vcyc(value, n int) int {
+	r := (value - 1) % n
+	if r < 0 {
+		r += n
+	}
+	return r
+}
+
+//@ lemma vcyc-is-the-residue
+//@   props C19
+//@   param v int
+//@   param n int
+//@   requires n > 0
+//@   ensures 0 <= vcyc(v, n) && vcyc(v, n) < n
+//@   ensures existsI(q, v - 1 == q*n + vcyc(v, n))
 
 // fixed: the n-th symbol for firstValue <= value < firstValue+len, no representation otherwise.
 //@ func nonRepeating
@@ -67,7 +85,8 @@ package counters
 //@   modifies a[..]
 //@   ensures forall(i, 0, len(a), a[i] == old(a[len(a)-1-i]))
 //@   loop 1 invariant 0 <= left && left <= right + 1 && left + right == len(a) - 1
-//@   loop 1 invariant forall(i, 0, left, a[i] == old(a[len(a)-1-i]) && a[len(a)-1-i] == old(a[i]))
+//@   loop 1 invariant forall(i, 0, left, a[i] == old(a[len(a)-1-i]))
+//@   loop 1 invariant forall(j, right + 1, len(a), a[j] == old(a[len(a)-1-j]))
 //@   loop 1 invariant forall(i, left, right + 1, a[i] == old(a[i]))
 //@   loop 1 decreases right - left + 1
 
